@@ -88,6 +88,17 @@ CLAIMS['C19'] = dict(
          "nothing is pending (path-sensitive). Histories of requests and the sweep's arithmetic are NOT explored.",
     technique="role discovery by effect + call-graph reachability + pending-aware value classification + typestate call counting over LLVM IR")
 
+CLAIMS['C03'] = dict(
+    text="Decides the plumbing that makes lookups land in the right chain whatever the rehash stage, on every path of the code as "
+         "written: (L1) keyed operations use only the bucket the pending-aware lookup returns; (L2) that lookup hashes under both "
+         "geometries and examines both buckets when a rehash is pending and returns the pending-geometry bucket, the current one "
+         "otherwise (path-sensitive, inlined); (L3) the cleaner relocates each node by its own key with the pending geometry, detaches "
+         "the chain first and marks the bucket clean on every dirty path; (L4) the element count moves exactly with chain insertions "
+         "and splices; (L5) resize forces the old rehash, then flips the clean bit, then records the pending geometry, new buckets "
+         "empty and clean; (L6) find calls the caller's visit only under key equality; (L7) the bucket-array byte size cannot wrap. "
+         "That the sweep's arithmetic visits every bucket, chain contents over histories, and swap are NOT decided.",
+    technique="role discovery by effect + path-sensitive typestate over inlined LLVM IR + dominance/ordering rules + no-wrap obligations")
+
 NA = {
     'C02': "inductive colour/black-height invariant over an unbounded pointer structure; needs shape/separation reasoning that no static analyser available here provides (DESIGN.md 4/C02)",
     'C07': "heap order and completeness are inductive invariants tying pointer shape to size arithmetic; not expressible as dataflow/typestate/effects (DESIGN.md 4/C07)",
